@@ -37,6 +37,10 @@ Proof.
   pose proof (rhe_pos_bound (Z.abs r * k) 1024 ltac:(lia)). lia.
 Qed.
 
+Lemma disp_spec r k : 0 <= k ->
+  0 <= disp r k /\ 2 * 1024 * disp r k <= 2 * (Z.abs r * k) + 1024.
+Proof. intros Hk. exact (conj (disp_nonneg r k Hk) (disp_bound r k Hk)). Qed.
+
 Lemma disp_zero r : disp r 0 = 0.
 Proof. unfold disp. rewrite Z.mul_0_r. reflexivity. Qed.
 
